@@ -272,7 +272,7 @@ func (m *monC12) Final(f *Flow) {
 		w.Probe("exchange_got_errclosed")
 	}
 	for _, c := range s.conns {
-		if !c.closedLocal {
+		if !c.ClosedLive {
 			w.Violate("C12", "connection-left-open", "conn", "conn%d was never closed by the client", c.id)
 			return
 		}
